@@ -117,6 +117,8 @@ class WifDecoder:
         priv_key_bytes = Base58Decoder.CheckDecode(wif_str)
 
         # Check net version
+        if len(priv_key_bytes) == 0:
+            raise ValueError("Invalid decoded key (empty)")
         if priv_key_bytes[0] != ord(net_ver):
             raise ValueError(
                 f"Invalid net version (expected 0x{ord(net_ver):02X}, got 0x{priv_key_bytes[0]:02X})"
